@@ -2,6 +2,7 @@ import PatVerif.Hex
 import PatVerif.Exec.KeyBlind
 import PatVerif.Exec.Ed25519
 import PatVerif.Model.DER
+import PatVerif.Model.Recode
 /-! Driver handlers for the signature forks (`c12.*` … `c15.*`): the executable references. -/
 namespace PatVerif.Drive.Sig
 open PatVerif PatVerif.Hex PatVerif.Exec
@@ -146,9 +147,9 @@ def handle (op : String) (a : List String) : Option String :=
       let k : Int := ((Ed25519.leNat x % Ed25519.L : Nat) : Int)
       let out := fun (ds : List Int) => "ok " ++ hxv (ds.map fun d => UInt8.ofNat (d % 256).toNat)
       match kind with
-      | "radix16" => some (out (Model.Recode.radix16Spec 63 k))
-      | "naf5" => some (out (Model.Recode.nafSpec 5 256 k))
-      | "naf8" => some (out (Model.Recode.nafSpec 8 256 k))
+      | "radix16" => some (out (PatVerif.Model.Recode.radix16Spec 63 k))
+      | "naf5" => some (out (PatVerif.Model.Recode.nafSpec 5 256 k))
+      | "naf8" => some (out (PatVerif.Model.Recode.nafSpec 8 256 k))
       | _ => none
     | none => none
   | "c14.key", [seed] => (parseV seed).map fun seed => "ok " ++ hxv (Ed25519.newKeyFromSeed sha512 seed)
